@@ -82,6 +82,16 @@ impl Script {
 }
 
 fn chunk_repr(c: &[u8]) -> Value {
+    if c.len() > 200 && c.len() >= 1000 && c[0] != c[1] {
+        // incompressible chunk: identified by its generator parameters (see `noise`)
+        for seed in 0..8u64 {
+            for line in [0usize, 64, 100_000] {
+                if noise(c.len(), line, seed) == c {
+                    return json!({"noise": c.len(), "line": line, "seed": seed});
+                }
+            }
+        }
+    }
     if c.len() > 200 {
         // big chunks: first byte repeated, optional trailing newline
         json!({"big": c.len(), "byte": c[0], "nl": c.last() == Some(&b'\n')})
@@ -90,6 +100,9 @@ fn chunk_repr(c: &[u8]) -> Value {
     }
 }
 fn chunk_parse(v: &Value) -> Vec<u8> {
+    if let Some(n) = v["noise"].as_u64() {
+        return noise(n as usize, v["line"].as_u64().unwrap_or(0) as usize, v["seed"].as_u64().unwrap_or(0));
+    }
     if let Some(n) = v["big"].as_u64() {
         let mut c = vec![v["byte"].as_u64().unwrap_or(88) as u8; n as usize];
         if v["nl"].as_bool().unwrap_or(false) {
@@ -328,6 +341,30 @@ fn deviations(id: &str) -> Vec<(String, Script)> {
     out
 }
 
+/// deterministic incompressible bytes (xorshift), with a newline every `line` bytes (0 = none)
+pub fn noise(len: usize, line: usize, seed: u64) -> Vec<u8> {
+    let mut x = 0x9E3779B97F4A7C15u64 ^ seed.wrapping_mul(0xD1B54A32D192ED03);
+    let mut v = Vec::with_capacity(len);
+    while v.len() < len {
+        x ^= x << 13;
+        x ^= x >> 7;
+        x ^= x << 17;
+        for b in x.to_le_bytes() {
+            if v.len() < len {
+                v.push(if b == b'\n' { 0x0b } else { b });
+            }
+        }
+    }
+    if line > 0 {
+        let mut i = line - 1;
+        while i < len {
+            v[i] = b'\n';
+            i += line;
+        }
+    }
+    v
+}
+
 fn members_value(m: &[(Script, Script)]) -> Value {
     json!(m.iter().map(|(a, b)| json!({"stdout": a.to_value(), "stderr": b.to_value()})).collect::<Vec<_>>())
 }
@@ -438,6 +475,28 @@ pub fn run(tier: &str, root: &Path, shard: usize, nshards: usize) -> Value {
             }
         }
     });
+    // ---- part 3: incompressible volume (crosses the encoder's internal block and output-buffer sizes)
+    let mut vol: Vec<Vec<(Pause, Vec<u8>)>> = vec![];
+    for (len, line) in [(140_000usize, 64usize), (300_000, 64), (300_000, 0), (700_000, 100_000)] {
+        let mut a = noise(len, line, 1);
+        if line == 0 {
+            a.push(b'\n');
+        }
+        vol.push(vec![(Pause::None, a.clone())]);
+        vol.push(vec![(Pause::None, a.clone()), (Pause::AfterTick, noise(len / 2, 64, 2))]);
+        vol.push(vec![(Pause::None, noise(100, 0, 3)), (Pause::AfterTick, a.clone())]);
+    }
+    vol.par_iter().enumerate().filter(|(k, _)| k % nshards == shard).for_each(|(k, steps)| {
+        let dir = thread_dir(root);
+        let sc = Script { steps: steps.clone(), final_pause: Pause::None };
+        let members = vec![(sc.clone(), default_script("v0e")), (default_script("v1o"), sc.clone())];
+        rep.eval(1);
+        rep.nontrivial(1);
+        let out = execute(&members, 0, &dir);
+        for (sig, detail) in judge(&members, &out) {
+            rep.violation(&sig, 950_000_000 + k as u64, json!({"members": members_value(&members), "seed": 0}), detail);
+        }
+    });
     // group sizes moving the round-robin registration over the two compressor threads
     for n in [1usize, 2, 3, 5, 8] {
         if n % nshards != shard {
@@ -461,7 +520,7 @@ pub fn run(tier: &str, root: &Path, shard: usize, nshards: usize) -> Value {
     rep.sample(json!({"members": members_value(&[(Script { steps: vec![(Pause::None, b"AAA".to_vec()), (Pause::AfterTick, b"BBB\n".to_vec())], final_pause: Pause::None }, Script::empty())]), "seed": 0}));
     rep.sample(json!({"members": members_value(&[(scripts[scripts.len() / 2].clone(), Script::empty())]), "seed": 1}));
     rep.finish(
-        "part 1: every script (sequence of (pause class, chunk) steps, then a final pause class before EOF) of length <=3 over the chunk alphabet x 5 pause classes relative to the 500 ms flush tick, one stream, every select! seed listed (thorough adds length 4 over a 3-chunk alphabet); part 2: 2 members x 2 streams with per-stream distinct bytes, default script plus every combination of <=bound single-stream deviations (split+pause, pause, no final newline, binary, 20 kB line, empty), and group sizes 1,2,3,5,8; each execution = real process_reader + real Compressor threads under a paused clock; oracle: every stored file decodes to exactly the bytes written to that stream; non-trivial = scripts in which a pause follows an unterminated line (part 1) / every plan (part 2)",
+        "part 1: every script (sequence of (pause class, chunk) steps, then a final pause class before EOF) of length <=3 over the chunk alphabet x 5 pause classes relative to the 500 ms flush tick, one stream, every select! seed listed (thorough adds length 4 over a 3-chunk alphabet); part 2: 2 members x 2 streams with per-stream distinct bytes, default script plus every combination of <=bound single-stream deviations (split+pause, pause, no final newline, binary, 20 kB line, empty), and group sizes 1,2,3,5,8; part 3: incompressible (pseudo-random) volume of 140 kB - 700 kB per stream as short lines, as one long line and split by a pause; each execution = real process_reader + real Compressor threads under a paused clock; oracle: every stored file decodes to exactly the bytes written to that stream; non-trivial = scripts in which a pause follows an unterminated line (part 1) / every plan (part 2)",
         true,
         json!({"script_len": len, "chunks": alpha.len(), "pause_classes": 5, "final_pause_classes": 2, "deviation_bound": bound, "seeds": seeds.len()}),
     )
